@@ -59,6 +59,10 @@ def parse_output(out, res):
         d, t = int(m.group(3)), int(m.group(4))
         od, ot = res.coverage.get(name, (0, 0))
         res.coverage[name] = (max(od, d), max(ot, t))
+    # a violation by an initial state is printed without a "State n:" header
+    m0 = re.search(r"is violated by the initial state:\n((?:/\\ .*\n(?:  .*\n)*)+)", out)
+    if m0:
+        res.trace.append(["Initial predicate", m0.group(1).rstrip("\n").split("\n")])
     # error trace
     cur = None
     for line in out.splitlines():
